@@ -44,6 +44,9 @@ func project(t *rapid.T, ts spec.TypeSpec, depth int) spec.TypeSpec {
 		out := spec.TypeSpec{K: "struct"}
 		mode := gen.Uniform(t, "projMode", 6) // 0: keep all, 5: delete all
 		for _, f := range ts.Fields {
+			if f.Unexported {
+				continue // not a field a projection can name (named types generated for the run have them)
+			}
 			keep := true
 			switch mode {
 			case 5:
@@ -116,7 +119,7 @@ func sameProjected(fts spec.TypeSpec, fv reflect.Value, pts spec.TypeSpec, pv re
 		for j, pf := range pts.Fields {
 			found := false
 			for i, ff := range fts.Fields {
-				if ff.AvroName() == pf.AvroName() {
+				if ff.AvroName() == pf.AvroName() && pf.AvroName() != "" {
 					found = true
 					if err := sameProjected(ff.T, fv.Field(i), pf.T, pv.Field(j), path+"."+pf.AvroName()); err != nil {
 						return err
